@@ -79,7 +79,7 @@ class add_column:
 
 @contract('pydbml._classes.table:Table.delete_column')
 class delete_column:
-    properties = ('C09',)
+    properties = ('C09', 'C17')
     params = {'self': 'Table', 'c': 'Union[Column,int]'}
 
     def requires_inv(self, c):
